@@ -487,7 +487,7 @@ def witness_program(ctx, cur, SIG, WHAT):
 
 def compiled_families(ctx, cur, coq_eval, variants_for, attribute, SIG, WHAT):
     r = ctx.rng("compiled")
-    n = 10 if ctx.quick else 100
+    n = 10 if ctx.quick else 80
     fams = [F.gen_family(r, compiled=True) for _ in range(n)]
     progs = [print_program(fam, r) for fam in fams]
 
